@@ -13,28 +13,29 @@ import (
 
 // Run is one abstract path through a plugin's New -> Add -> Generate.
 type Run struct {
-	Plugin     string
-	Config     string
-	Script     []int
-	Decisions  []Decision
-	Outcome    string // rejected | generror | accepted | panic | undecided
-	Msg        string
-	Pos        token.Pos
-	Lines      []Line
-	Text       string      // rendered residual program, starting with "package p"
-	LinePos    []token.Pos // generator position per rendered line (index = line number - 1)
-	Holes      map[string]*Hole
-	Requests   []*Request
-	Imports    map[string]int
-	ImportUse  map[string]bool
-	Registered []Value
-	AddArgs    []Value     // the argument types of the call as given to Add
-	FormatData []token.Pos // Printer.P calls whose format argument contains the text of a type
-	Generating [][]Value
-	RecCut     bool
-	Dup        bool // same text as an earlier accepted run of this plugin
-	NArgs      int
-	Arities    []int
+	Plugin            string
+	Config            string
+	Script            []int
+	Decisions         []Decision
+	Outcome           string // rejected | generror | accepted | panic | undecided
+	Msg               string
+	Pos               token.Pos
+	Lines             []Line
+	Text              string      // rendered residual program, starting with "package p"
+	LinePos           []token.Pos // generator position per rendered line (index = line number - 1)
+	Holes             map[string]*Hole
+	Requests          []*Request
+	Imports           map[string]int
+	ImportUse         map[string]bool
+	Registered        []Value
+	AddArgs           []Value     // the argument types of the call as given to Add
+	FormatData        []token.Pos // Printer.P calls whose format argument contains the text of a type
+	UnusedTypeStrings []token.Pos // TypeString calls none of whose type holes reached the emitted text
+	Generating        [][]Value
+	RecCut            bool
+	Dup               bool // same text as an earlier accepted run of this plugin
+	NArgs             int
+	Arities           []int
 }
 
 // decision lookup helpers
@@ -295,6 +296,58 @@ func (s *Sweeper) one(plugin string, newFn *VFunc, cfg sweepConfig, or *Oracle) 
 	run.Holes = map[string]*Hole{}
 	for _, h := range in.holeList {
 		run.Holes[h.ID] = h
+	}
+	for _, tc := range in.typeStringCalls {
+		used, has := false, false
+		for _, part := range tc.str.Parts {
+			if part.Hole != nil && part.Hole.Kind == "TYPE" {
+				has = true
+				id := in.canonHole(part.Hole).ID
+				if strings.Contains(run.Text, id) {
+					used = true
+				}
+				// the same type may have reached the text through another hole (its mangled twin, a bypass rendering is not one)
+				for _, h := range in.holeList {
+					if h.Kind != "TYPE" || strings.HasPrefix(h.Origin, "bypass:") || !strings.Contains(run.Text, h.ID) {
+						continue
+					}
+					if h.Val == part.Hole.Val {
+						used = true
+					}
+					if ho, ok := h.Val.(*VOpaque); ok && ho != nil && ho.attrs["#mangledOf"] == part.Hole.Val {
+						used = true
+					}
+				}
+				// the text of a struct type literal spells its field types: they may have reached the text one by one
+				if o, ok := part.Hole.Val.(*VOpaque); ok && !used && o != nil && o.Kind == "*types.Struct" && !o.built {
+					if el, ok := o.attrs["#elems"].(*VList); ok {
+						all := true
+						for _, e := range el.Elems {
+							eo, _ := e.(*VOpaque)
+							var ft Value
+							if eo != nil {
+								ft = eo.attrs["Type"]
+							}
+							found := false
+							for _, h := range in.holeList {
+								if h.Kind == "TYPE" && ft != nil && h.Val == ft && !strings.HasPrefix(h.Origin, "bypass:") && strings.Contains(run.Text, h.ID) {
+									found = true
+								}
+							}
+							if !found {
+								all = false
+							}
+						}
+						if all {
+							used = true
+						}
+					}
+				}
+			}
+		}
+		if has && !used {
+			run.UnusedTypeStrings = append(run.UnusedTypeStrings, tc.pos)
+		}
 	}
 	if in.indent != 0 {
 		run.Msg = fmt.Sprintf("indentation is %d at the end of Generate", in.indent)
